@@ -63,6 +63,7 @@ class BulkMonitor(Monitor):
                 cells = list(df[column])
                 others = {c: list(df[c]) for c in df.columns}
                 order = list(df.columns)
+                index = list(df.index)
             except Exception:  # noqa: BLE001
                 out_of_domain(mon, "no-such-column")
                 return None
@@ -70,7 +71,7 @@ class BulkMonitor(Monitor):
                 out_of_domain(mon, "non-string-cells")
                 return None
             plain, ambiguous = PD[fn]
-            ctx.update(kind="pd", df=df, column=column, target=target, cells=cells, others=others, order=order,
+            ctx.update(kind="pd", df=df, column=column, target=target, cells=cells, others=others, order=order, index=index,
                        scalar=ambiguous if (amb and ambiguous) else plain, strict=bool(strict), pt=bool(pt), amb=bool(amb))
         else:
             path = a.pop(0) if a else kw.pop("path", None)
@@ -189,6 +190,9 @@ class BulkMonitor(Monitor):
                 if not same:
                     violation(["C16"], mon, "other-column-changed" if c != ctx["column"] else "source-column-changed-despite-target_column", column_changed=c, **w)
                     return
+            if list(df.index) != ctx["index"]:
+                violation(["C16"], mon, "row-labels-or-row-order-changed", index_before=ctx["index"], index_after=list(df.index), **w)
+                return
             want_order = ctx["order"] + ([out_col] if out_col not in ctx["order"] else [])
             if list(df.columns) != want_order:
                 violation(["C16"], mon, "columns-reordered-or-lost", columns=list(df.columns), **w)
